@@ -3,7 +3,7 @@
 From Coq Require Import ZArith QArith List Bool.
 From Coq Require Import Floats.PrimFloat.
 From PAFCommon Require Import PyFloat PyNum Lists.
-From PAFC16 Require Import Gen Lib.
+From PAFC16 Require Import Gen Lib Machine.
 Import ListNotations.
 
 (* make_lists(len steps, tuple steps, centre_steps) *)
@@ -52,6 +52,39 @@ Definition cells_Q (n : Z) (priors : list (Q * Q)) : list (list (Q * Q)) :=
 (* k-th cell of one dimension in exact arithmetic *)
 Definition cell1_Q (n : Z) (lohi : Q * Q) (k : Z) : Q * Q :=
   cell_Q n lohi (ml_value_Q (gs_step_size_Q n) k false).
+
+(* ---------- the grid-search / sensitivity OBJECT used several times (Machine.v) ----------
+   GridSearch: step count n : Z; a use is applied to the limits of the grid priors; the lattice is
+   GridSearch.make_lists, the cells are make_arguments with the LIVE step size over that lattice.
+   `code_policy`: the code that exists builds the lattice on every call (no cache). *)
+Definition code_policy : policy := NoCache.
+Definition gs_cells_of_F (n : Z) (priors : list (float * float)) (lat : list (list float)) := map (map2 (cell_F n) priors) lat.
+Definition gs_cells_of_Q (n : Z) (priors : list (Q * Q)) (lat : list (list Q)) := map (map2 (cell_Q n) priors) lat.
+Definition gs_dim {P : Type} (_ : Z) (priors : list P) : nat := length priors.
+Definition gs_run_F (p : policy) (n0 : Z) (ops : list (@op Z (list (float * float)))) : list (@out float (float * float)) :=
+  run Z _ _ _ Z.eqb (fun d n => grid_lists_F d n) gs_dim gs_cells_of_F p (init Z float n0) ops.
+Definition gs_run_Q (p : policy) (n0 : Z) (ops : list (@op Z (list (Q * Q)))) : list (@out Q (Q * Q)) :=
+  run Z _ _ _ Z.eqb (fun d n => grid_lists_Q d n) gs_dim gs_cells_of_Q p (init Z Q n0) ops.
+Definition gs_expected_Q (n0 : Z) (ops : list (@op Z (list (Q * Q)))) : list (@out Q (Q * Q)) :=
+  expected Z _ _ _ (fun d n => grid_lists_Q d n) gs_dim gs_cells_of_Q n0 ops.
+(* Sensitivity: per-dimension step counts ns; a use is applied to a limit scale *)
+Fixpoint zlist_eqb (a b : list Z) : bool :=
+  match a, b with
+  | [], [] => true
+  | x :: a', y :: b' => Z.eqb x y && zlist_eqb a' b'
+  | _, _ => false
+  end.
+Definition sens_units_of_F (ns : list Z) (ls : float) (lat : list (list float)) : list (list (float * float)) :=
+  map (fun row => map2 (fun c h => (sens_unit_lower_F c h, sens_unit_upper_F c h)) row (sens_halves_F ls ns)) lat.
+Definition sens_units_of_Q (ns : list Z) (ls : Q) (lat : list (list Q)) : list (list (Q * Q)) :=
+  map (fun row => map2 (fun c h => (sens_unit_lower_Q c h, sens_unit_upper_Q c h)) row (sens_halves_Q ls ns)) lat.
+Definition sens_dim {P : Type} (ns : list Z) (_ : P) : nat := length ns.
+Definition sens_run_F (p : policy) (ns0 : list Z) (ops : list (@op (list Z) float)) : list (@out float (float * float)) :=
+  run (list Z) _ _ _ zlist_eqb (fun _ ns => sens_lists_F ns) sens_dim sens_units_of_F p (init (list Z) float ns0) ops.
+Definition sens_run_Q (p : policy) (ns0 : list Z) (ops : list (@op (list Z) Q)) : list (@out Q (Q * Q)) :=
+  run (list Z) _ _ _ zlist_eqb (fun _ ns => sens_lists_Q ns) sens_dim sens_units_of_Q p (init (list Z) Q ns0) ops.
+Definition sens_expected_Q (ns0 : list Z) (ops : list (@op (list Z) Q)) : list (@out Q (Q * Q)) :=
+  expected (list Z) _ _ _ (fun _ ns => sens_lists_Q ns) sens_dim sens_units_of_Q ns0 ops.
 
 (* ResultBuilder: a dict keyed by job number; sample_summaries reads range(len(lists)) *)
 Section Builder.
@@ -133,7 +166,17 @@ Inductive case :=
 | CProgress (total : nat) (arrivals : list Z) (expected : list (list bool))
 | CSensCells (ls : float) (ns : list Z) (expected : list (list (float * float)))
 | CSensLists (ns : list Z) (expected : list (list float)) (shape : list Z)
-| CSensSorted (arrivals : list Z) (expected : list Z).
+| CSensSorted (arrivals : list Z) (expected : list Z)
+(* one object, several uses: every answer of the history, in order *)
+| CHistory (n0 : Z) (ops : list (@op Z (list (float * float)))) (expected : list (@out float (float * float)))
+| CSensHistory (ns0 : list Z) (ops : list (@op (list Z) float)) (expected : list (@out float (float * float))).
+
+Definition out_eqb (a b : @out float (float * float)) : bool :=
+  match a, b with
+  | RLists x, RLists y => list_eqb flist_eqb x y
+  | RCells x, RCells y => list_eqb (list_eqb pair_eqb) x y
+  | _, _ => false
+  end.
 
 Definition check_case (c : case) : bool :=
   match c with
@@ -158,4 +201,6 @@ Definition check_case (c : case) : bool :=
   | CSensCells ls ns e => list_eqb (list_eqb pair_eqb) (sens_cell_units_F ls ns) e
   | CSensLists ns e shape => list_eqb flist_eqb (sens_lists_F ns) e && list_eqb Z.eqb ns shape
   | CSensSorted arrivals e => list_eqb Z.eqb (map fst (sens_collect (map (fun k => (k, tt)) arrivals))) e
+  | CHistory n0 ops e => list_eqb out_eqb (gs_run_F code_policy n0 ops) e
+  | CSensHistory ns0 ops e => list_eqb out_eqb (sens_run_F code_policy ns0 ops) e
   end.
